@@ -124,6 +124,13 @@ def build(cfg):
         if cfg.get("rev", True):
             return S.StreamReversed(inner, L, sample_width=2), rev_words(seg_logical[off:off + L], 2), 2
         return inner, seg_logical[off:off + L], 0
+    if k == "mdx":
+        # the MDX wrapper as the tool opens it: 64-byte header (with the end-of-payload field), payload, footer of 0..n bytes
+        from smpl_extract.alcohol import mdx as MDX_
+        from mcv.gen import containers as C_
+        payload = base_bytes(cfg["L"])
+        raw = C_.mdx(payload, descriptor=cfg["footer"])
+        return MDX_.MdxStream(io.BytesIO(raw)), payload, 0
     if k == "late_window":
         # a window laid over a parent VIEW (which knows its own length) that has already been read / moved when the window
         # is built -- the way a second sample, or a second export, finds the partition stream
@@ -323,6 +330,9 @@ def configs(quick):
         out.append({"kind": "nest_roland_rev", "sector": 4, "chain": chain, "poff": 6, "off": off, "L": L, "s": 4})
         out.append({"kind": "nest_roland_rev", "sector": 4, "chain": chain, "poff": 6, "off": off, "L": L,
                     "rev": False, "s": 4})
+    for L in (1, 8, 9):
+        for footer in (0, 1, 7, 63, 64, 65, 200):
+            out.append({"kind": "mdx", "L": L, "footer": footer, "s": 4})
     for pk in ("offset", "file", "mdf"):
         for ppos, pread in ((0, 0), (3, 0), (9, 0), (14, 0), (16, 0), (0, 16), (5, 4)):
             for off, L in ((0, 16), (8, 8), (4, 6)):
@@ -427,7 +437,7 @@ class Check(CheckBase):
     id = "C08"
     level = "model_checking"
     title = "Byte-window views behave as read-only files under any seek/read history"
-    rule = ("per stream configuration (incl. 63 windows built over a parent view that was already moved / read to its end): BFS over {seek(o,whence), read(n), read(-1), tell} from the fresh "
+    rule = ("per stream configuration (incl. the MDX wrapper with footers of 0..200 bytes behind its payload, 63 windows built over a parent view that was already moved / read to its end): BFS over {seek(o,whence), read(n), read(-1), tell} from the fresh "
             "object on the real classes, dedup on canonical layer-stack state, to fixed point; plus all "
             "un-deduplicated op sequences to depth d (quick 2 / thorough 3) on fresh objects; every edge "
             "compared with a bytes-slice reference; raw-sector (MDF) view additionally for EVERY sector count 1..159 (thorough "
